@@ -138,4 +138,108 @@ theorem add_absorb_le_float (x D : Float) (hx0 : 0 < toRat x) (fD : D.isFinite =
     generalize (2 : ℚ) ^ e = P at *
     linarith
 
+/-! ### the same at the level of the mantissa exponent -/
+
+/-- unpacked level: if the sum of two positive finite numbers is `m·2^e`, it is within `2^e / 2` of the exact sum. -/
+theorem uadd_half_ulp_pos (spec : Format) (m₁ : Nat) (e₁ : Int) (h₁ : 0 < m₁) (m₂ : Nat) (e₂ : Int) (h₂ : 0 < m₂)
+    (m : Nat) (e : Int) (hm : 0 < m)
+    (hr : UnpackedFloat.add spec (.finite .positive m₁ e₁ h₁) (.finite .positive m₂ e₂ h₂) = .finite .positive m e hm) :
+    |(m : ℚ) * (2 : ℚ) ^ e - ((m₁ : ℚ) * (2 : ℚ) ^ e₁ + (m₂ : ℚ) * (2 : ℚ) ^ e₂)| ≤ (2 : ℚ) ^ e / 2 := by
+  rw [add_fin] at hr
+  generalize hE : min e₁ e₂ = E at hr
+  have hEe : E ≤ e₁ := by omega
+  have hEe' : E ≤ e₂ := by omega
+  obtain ⟨a, ha⟩ : ∃ a : Nat, (a : Int) = e₁ - E := ⟨(e₁ - E).toNat, by omega⟩
+  obtain ⟨b, hb⟩ : ∃ b : Nat, (b : Int) = e₂ - E := ⟨(e₂ - E).toNat, by omega⟩
+  have ta : (e₁ - E).toNat = a := by omega
+  have tb : (e₂ - E).toNat = b := by omega
+  have hp : ∀ n : Nat, Sign.positive.apply (n : Int) = (n : Int) := fun _ => rfl
+  have hpa := Nat.two_pow_pos a
+  have hMpos : 0 < m₁ * 2 ^ a + m₂ * 2 ^ b := by have := Nat.mul_pos h₁ hpa; omega
+  rw [ta, tb, hp, hp, ← Int.natCast_add, normalize_pos _ _ _ _ (by exact_mod_cast hMpos), Int.toNat_natCast] at hr
+  have h2a : (2 : ℚ) ^ e₁ = (2 : ℚ) ^ a * (2 : ℚ) ^ E := by
+    rw [← zpow_natCast, ← zpow_add₀ (two_ne_zero)]; congr 1; omega
+  have h2b : (2 : ℚ) ^ e₂ = (2 : ℚ) ^ b * (2 : ℚ) ^ E := by
+    rw [← zpow_natCast, ← zpow_add₀ (two_ne_zero)]; congr 1; omega
+  have hMv : ((m₁ * 2 ^ a + m₂ * 2 ^ b : Nat) : ℚ) * (2 : ℚ) ^ E =
+      (m₁ : ℚ) * (2 : ℚ) ^ e₁ + (m₂ : ℚ) * (2 : ℚ) ^ e₂ := by
+    rw [h2a, h2b]; push_cast; ring
+  generalize m₁ * 2 ^ a + m₂ * 2 ^ b = M at *
+  have hsh := round_shape spec .positive M (by omega) E
+  have hh := rq_half_ulp spec M E
+  rw [hMv] at hh
+  rw [hr] at hsh
+  rcases hsh with ⟨_, h0⟩ | ⟨_, _, _, ⟨p, hfin⟩⟩ | ⟨hq, _, ⟨p, hfin⟩⟩
+  · cases h0
+  · injection hfin with _ hm' he'
+    rw [hm', he']; exact hh
+  · injection hfin with _ hm' he'
+    rw [hq] at hh
+    obtain ⟨n, hn⟩ : ∃ n, spec.mantissaBits = n + 1 := ⟨spec.mantissaBits - 1, by have := mantissaBits_pos spec; omega⟩
+    rw [hn] at hh hm'
+    rw [Nat.add_sub_cancel] at hm'
+    have hte := two_zpow_pos (tgt spec M E)
+    have key : ((2 ^ n : Nat) : ℚ) * (2 : ℚ) ^ (tgt spec M E + 1) = ((2 ^ (n + 1) : Nat) : ℚ) * (2 : ℚ) ^ tgt spec M E := by
+      rw [zpow_add₀ (two_ne_zero), zpow_one]; push_cast; ring
+    have k2 : (2 : ℚ) ^ (tgt spec M E + 1) = (2 : ℚ) ^ tgt spec M E * 2 := by
+      rw [zpow_add₀ (two_ne_zero), zpow_one]
+    rw [hm', he', key]
+    refine le_trans hh ?_
+    rw [k2]; linarith
+
+/-- **half an ulp of the RESULT's grid**: `a > 0`, `b ≥ 0` finite, `a + b = m·2^e` finite ⟹
+`|toRat (a + b) − (toRat a + toRat b)| ≤ 2^e / 2`. -/
+theorem add_half_ulp_float (a b : Float) (ha : 0 < toRat a) (fb : b.isFinite = true) (hb : 0 ≤ toRat b)
+    (m : Nat) (e : Int) (hm : 0 < m) (hu : (a + b).toModel.unpack = .finite .positive m e hm) :
+    |toRat (a + b) - (toRat a + toRat b)| ≤ (2 : ℚ) ^ e / 2 := by
+  have ca := float_canon a
+  have cb := float_canon b
+  have hc := add_canon Format.binary64 _ _ ca cb
+  have fb' : b.toModel.unpack.isFinite = true := fb
+  unfold toRat at *
+  rw [hu]
+  rw [float_add_unpack] at hu
+  have hadd : UnpackedFloat.add Format.binary64 a.toModel.unpack b.toModel.unpack = .finite .positive m e hm := by
+    rcases repack_cases Format.binary64 (by decide) _ hc with ⟨h1, _⟩ | ⟨s, m', e', p, _, _, h1⟩
+    · rw [h1] at hu; exact hu
+    · rw [h1] at hu; cases hu
+  generalize a.toModel.unpack = ua at *
+  generalize b.toModel.unpack = ub at *
+  obtain ⟨m₁, e₁, h₁, rfl⟩ := pos_fin_of_uval_pos ua ha
+  rcases nonneg_fin_cases ub fb' hb with ⟨s, rfl⟩ | ⟨m₂, e₂, h₂, rfl⟩
+  · have h0 : UnpackedFloat.add Format.binary64 (.finite .positive m₁ e₁ h₁) (.zero s) = .finite .positive m₁ e₁ h₁ := rfl
+    rw [h0] at hadd
+    injection hadd with _ hm' he'
+    subst hm'; subst he'
+    have : uval (UnpackedFloat.zero s) = 0 := rfl
+    rw [this, add_zero, sub_self, abs_zero]
+    exact (div_pos (two_zpow_pos _) (by norm_num)).le
+  · have := uadd_half_ulp_pos Format.binary64 m₁ e₁ h₁ m₂ e₂ h₂ m e hm hadd
+    simpa only [uval, sgnQ, one_mul] using this
+
+/-- **absorption, exponent form**: `x = m·2^e > 0`, `0 ≤ D < 2^e / 2` finite ⟹ `toRat (x + D) ≤ toRat x`. -/
+theorem add_absorb_le_float_exp (x D : Float) (m : Nat) (e : Int) (hm : 0 < m)
+    (hu : x.toModel.unpack = .finite .positive m e hm) (fD : D.isFinite = true) (hD0 : 0 ≤ toRat D)
+    (hD : toRat D < (2 : ℚ) ^ e / 2) (hfin : (x + D).isFinite = true) :
+    toRat (x + D) ≤ toRat x := by
+  have hfin' : (x + D).toModel.unpack.isFinite = true := hfin
+  have cx := float_canon x
+  have cD := float_canon D
+  have hc := add_canon Format.binary64 _ _ cx cD
+  have fD' : D.toModel.unpack.isFinite = true := fD
+  unfold toRat at *
+  rw [float_add_unpack] at hfin' ⊢
+  have hrep : uval (repack Format.binary64 (UnpackedFloat.add Format.binary64 x.toModel.unpack D.toModel.unpack)) =
+      uval (UnpackedFloat.add Format.binary64 x.toModel.unpack D.toModel.unpack) := by
+    rcases repack_cases Format.binary64 (by decide) _ hc with ⟨h1, _⟩ | ⟨s, m, e, p, _, _, h1⟩
+    · rw [h1]
+    · rw [h1] at hfin'; cases hfin'
+  rw [hrep, hu]
+  rw [hu] at cx
+  generalize D.toModel.unpack = uD at *
+  rcases nonneg_fin_cases uD fD' hD0 with ⟨s, rfl⟩ | ⟨m', e', hm', rfl⟩
+  · exact le_of_eq rfl
+  · simp only [uval, sgnQ, one_mul] at hD ⊢
+    exact uadd_absorb_le Format.binary64 m e hm cx m' e' hm' hD
+
 end Rosu.FErr
